@@ -29,6 +29,7 @@ type LoopSpec struct {
 type SpecFn struct {
 	Opaque bool
 	Abstract bool // uninterpreted, never revealed
+	Macro    bool // expanded at each use in the current state (may read heap and ghost state)
 	Name   string
 	Params []Binder
 	Ret    string
@@ -334,14 +335,14 @@ func splitTopLevel(s string, sep rune) []string {
 	return out
 }
 
-var specFnRe = regexp.MustCompile(`^((?:rec|opaque|abstract)\s+)?fn\s+([A-Za-z_][A-Za-z0-9_]*)\s*\(([^)]*)\)\s*([A-Za-z0-9_\[\]\.]+)\s*(?:=\s*(.*))?$`)
+var specFnRe = regexp.MustCompile(`^((?:rec|opaque|abstract|macro)\s+)?fn\s+([A-Za-z_][A-Za-z0-9_]*)\s*\(([^)]*)\)\s*([A-Za-z0-9_\[\]\.]+)\s*(?:=\s*(.*))?$`)
 
 func parseSpecFn(rest, path string, line int) (*SpecFn, error) {
 	m := specFnRe.FindStringSubmatch(rest)
 	if m == nil {
 		return nil, fmt.Errorf("%s:%d: bad spec fn syntax: %q", path, line, rest)
 	}
-	sf := &SpecFn{Name: m[2], Ret: m[4], Body: m[5], Rec: strings.HasPrefix(m[1], "rec"), Opaque: strings.HasPrefix(m[1], "opaque"), Abstract: strings.HasPrefix(m[1], "abstract"), File: path, Line: line}
+	sf := &SpecFn{Name: m[2], Ret: m[4], Body: m[5], Rec: strings.HasPrefix(m[1], "rec"), Opaque: strings.HasPrefix(m[1], "opaque"), Abstract: strings.HasPrefix(m[1], "abstract"), Macro: strings.HasPrefix(m[1], "macro"), File: path, Line: line}
 	if sf.Abstract {
 		// abstract: an uninterpreted function (no definition anywhere); the body, if given, is ignored
 		sf.Body = "true"
